@@ -1,9 +1,11 @@
 package main
 
 import (
+	"fmt"
 	"go/constant"
 	"go/token"
 	"go/types"
+	"sort"
 	"strings"
 
 	"golang.org/x/tools/go/ssa"
@@ -574,35 +576,80 @@ func instrIndex(in ssa.Instruction) int {
 	return -1
 }
 
+// PathOpts tunes MustPass.
+type PathOpts struct {
+	// Stop marks instructions at which a path counts as discharged for another
+	// reason (e.g. teardown).
+	Stop func(ssa.Instruction) bool
+	// Feasible filters CFG edges (nil = all feasible).
+	Feasible func(from *ssa.BasicBlock, succIdx int) bool
+	// Facts seeds boolean facts known at the start (e.g. "this call returned true").
+	Facts map[ssa.Value]bool
+}
+
 // MustPass reports whether every path from just after `from` to a function
 // exit passes an instruction satisfying target. Deferred calls that were
 // registered on every path to `from` (their Defer dominates it) or that are
-// registered later on the path count when the path reaches RunDefers. stop
-// (optional) marks instructions at which a path is considered discharged for a
-// different reason (e.g. teardown). On failure the offending exit is returned.
+// registered later on the path count when the path reaches RunDefers. On
+// failure the offending exit is returned.
 func MustPass(from ssa.Instruction, target func(ssa.Instruction) bool, stop func(ssa.Instruction) bool) (bool, ssa.Instruction) {
-	fn := from.Parent()
-	// deferred targets dominating from
+	return MustPassOpt(from.Block(), instrIndex(from)+1, from, target, PathOpts{Stop: stop})
+}
+
+// MustPassFromBlock starts at the first instruction of block b.
+func MustPassFromBlock(b *ssa.BasicBlock, target func(ssa.Instruction) bool, opts PathOpts) (bool, ssa.Instruction) {
+	return MustPassOpt(b, 0, nil, target, opts)
+}
+
+func MustPassOpt(startB *ssa.BasicBlock, startI int, from ssa.Instruction, target func(ssa.Instruction) bool, opts PathOpts) (bool, ssa.Instruction) {
+	fn := startB.Parent()
 	deferOK := false
 	for _, b := range fn.Blocks {
 		for _, in := range b.Instrs {
 			if d, ok := in.(*ssa.Defer); ok && target(d) {
-				if b == from.Block() && instrIndex(d) < instrIndex(from) {
+				if b == startB && instrIndex(d) < startI {
 					deferOK = true
-				} else if b != from.Block() && b.Dominates(from.Block()) {
+				} else if b != startB && b.Dominates(startB) {
 					deferOK = true
 				}
 			}
 		}
 	}
-	type pt struct {
-		b *ssa.BasicBlock
-		i int
+	// The walk is path-sensitive in boolean facts: outcomes of branches taken
+	// and values of bool φ-nodes determined by the edge they were entered by.
+	type facts map[ssa.Value]bool
+	enc := func(f facts) string {
+		keys := make([]string, 0, len(f))
+		for k, v := range f {
+			keys = append(keys, fmt.Sprintf("%p=%v", k, v))
+		}
+		sort.Strings(keys)
+		return strings.Join(keys, ",")
 	}
-	seen := map[*ssa.BasicBlock]bool{}
+	var eval func(v ssa.Value, f facts) (bool, bool)
+	eval = func(v ssa.Value, f facts) (bool, bool) {
+		if c, ok := v.(*ssa.Const); ok && c.Value != nil && c.Value.Kind() == constant.Bool {
+			return constant.BoolVal(c.Value), true
+		}
+		if u, ok := v.(*ssa.UnOp); ok && u.Op == token.NOT {
+			if b, known := eval(u.X, f); known {
+				return !b, true
+			}
+			return false, false
+		}
+		b, ok := f[v]
+		return b, ok
+	}
+	seen := map[string]bool{}
 	var bad ssa.Instruction
-	var walk func(b *ssa.BasicBlock, i int, sawDefer bool) bool
-	walk = func(b *ssa.BasicBlock, i int, sawDefer bool) bool {
+	steps := 0
+	var walk func(b *ssa.BasicBlock, i int, sawDefer bool, f facts) bool
+	walk = func(b *ssa.BasicBlock, i int, sawDefer bool, f facts) bool {
+		steps++
+		if steps > 200000 {
+			bad = b.Instrs[0]
+			return false
+		}
 		for ; i < len(b.Instrs); i++ {
 			in := b.Instrs[i]
 			if _, isDefer := in.(*ssa.Defer); isDefer {
@@ -614,7 +661,7 @@ func MustPass(from ssa.Instruction, target func(ssa.Instruction) bool, stop func
 			if target(in) {
 				return true
 			}
-			if stop != nil && stop(in) {
+			if opts.Stop != nil && opts.Stop(in) {
 				return true
 			}
 			switch in.(type) {
@@ -631,19 +678,75 @@ func MustPass(from ssa.Instruction, target func(ssa.Instruction) bool, stop func
 			bad = b.Instrs[len(b.Instrs)-1]
 			return false
 		}
-		for _, s := range b.Succs {
-			if seen[s] {
+		var ifi *ssa.If
+		if x, ok := b.Instrs[len(b.Instrs)-1].(*ssa.If); ok {
+			ifi = x
+		}
+		for si, s := range b.Succs {
+			if opts.Feasible != nil && !opts.Feasible(b, si) {
 				continue
 			}
-			seen[s] = true
-			if !walk(s, 0, sawDefer) {
+			nf := facts{}
+			for k, v := range f {
+				nf[k] = v
+			}
+			if ifi != nil && b.Succs[0] != b.Succs[1] {
+				want := si == 0
+				if bv, known := eval(ifi.Cond, f); known && bv != want {
+					continue // contradicts a fact established on this path
+				}
+				c, t := normCond(ifi.Cond, want)
+				nf[c] = t
+			}
+			// φ-nodes of the successor take the value of this edge
+			predIx := -1
+			for pi, p := range s.Preds {
+				if p == b {
+					predIx = pi
+				}
+			}
+			type upd struct {
+				phi ssa.Value
+				val bool
+				ok  bool
+			}
+			var upds []upd
+			for _, in := range s.Instrs {
+				phi, ok := in.(*ssa.Phi)
+				if !ok {
+					break
+				}
+				if bt, isB := phi.Type().Underlying().(*types.Basic); !isB || bt.Kind() != types.Bool {
+					continue
+				}
+				if predIx >= 0 {
+					bv, known := eval(phi.Edges[predIx], nf)
+					upds = append(upds, upd{phi, bv, known})
+				}
+			}
+			for _, u := range upds {
+				if u.ok {
+					nf[u.phi] = u.val
+				} else {
+					delete(nf, u.phi)
+				}
+			}
+			key := fmt.Sprintf("%d|%v|%s", s.Index, sawDefer, enc(nf))
+			if seen[key] {
+				continue
+			}
+			seen[key] = true
+			if !walk(s, 0, sawDefer, nf) {
 				return false
 			}
 		}
 		return true
 	}
-	idx := instrIndex(from)
-	ok := walk(from.Block(), idx+1, false)
+	init := facts{}
+	for k, v := range opts.Facts {
+		init[k] = v
+	}
+	ok := walk(startB, startI, false, init)
 	return ok, bad
 }
 
@@ -965,4 +1068,103 @@ func loopBlocks(b *ssa.BasicBlock) map[*ssa.BasicBlock]bool {
 		}
 	}
 	return out
+}
+
+// retResults resolves the values returned by r, looking through the
+// defer-induced spill of results into locals (*t0 = v; rundefers; return *t0).
+func retResults(r *ssa.Return) []ssa.Value {
+	out := make([]ssa.Value, len(r.Results))
+	for i, v := range r.Results {
+		out[i] = v
+		u, ok := v.(*ssa.UnOp)
+		if !ok || u.Op != token.MUL {
+			continue
+		}
+		al, ok := u.X.(*ssa.Alloc)
+		if !ok {
+			continue
+		}
+		b := r.Block()
+		for j := instrIndex(r) - 1; j >= 0; j-- {
+			if st, ok := b.Instrs[j].(*ssa.Store); ok && st.Addr == al {
+				out[i] = st.Val
+				break
+			}
+		}
+	}
+	return out
+}
+
+// allReturns lists the Return instructions of fn (excluding the recover block).
+func allReturns(fn *ssa.Function) []*ssa.Return {
+	var out []*ssa.Return
+	for _, b := range fn.Blocks {
+		if b == fn.Recover {
+			continue
+		}
+		for _, in := range b.Instrs {
+			if r, ok := in.(*ssa.Return); ok {
+				out = append(out, r)
+			}
+		}
+	}
+	return out
+}
+
+// typeAssertOK: v is the ok component of a comma-ok assertion to type named tname (pointer to named).
+func typeAssertOK(v ssa.Value, tname string) bool {
+	ex, ok := v.(*ssa.Extract)
+	if !ok || ex.Index != 1 {
+		return false
+	}
+	ta, ok := ex.Tuple.(*ssa.TypeAssert)
+	if !ok {
+		return false
+	}
+	return typeShort(ta.AssertedType) == tname
+}
+
+func typeShort(t types.Type) string {
+	return types.TypeString(t, func(*types.Package) string { return "" })
+}
+
+// SameExpr matches values structurally equal to w: identical SSA value, or the
+// same pure expression (loads of the same field from the same base, constants,
+// arithmetic over such).
+func SameExpr(w ssa.Value) VPat {
+	return func(v ssa.Value) bool { return sameExpr(v, w, 0) }
+}
+
+func sameExpr(a, b ssa.Value, d int) bool {
+	a, b = unconv(a), unconv(b)
+	if a == b {
+		return true
+	}
+	if d > 6 {
+		return false
+	}
+	switch x := a.(type) {
+	case *ssa.Const:
+		y, ok := b.(*ssa.Const)
+		if !ok {
+			return false
+		}
+		if x.Value == nil || y.Value == nil {
+			return x.Value == nil && y.Value == nil
+		}
+		return constant.Compare(x.Value, token.EQL, y.Value)
+	case *ssa.UnOp:
+		y, ok := b.(*ssa.UnOp)
+		return ok && x.Op == y.Op && sameExpr(x.X, y.X, d+1)
+	case *ssa.FieldAddr:
+		y, ok := b.(*ssa.FieldAddr)
+		return ok && x.Field == y.Field && sameExpr(x.X, y.X, d+1)
+	case *ssa.Field:
+		y, ok := b.(*ssa.Field)
+		return ok && x.Field == y.Field && sameExpr(x.X, y.X, d+1)
+	case *ssa.BinOp:
+		y, ok := b.(*ssa.BinOp)
+		return ok && x.Op == y.Op && sameExpr(x.X, y.X, d+1) && sameExpr(x.Y, y.Y, d+1)
+	}
+	return false
 }
